@@ -28,7 +28,22 @@ def tup(*es): return ('tup', list(es))
 def pt(*ps): return ('pt', [('pv', x) if isinstance(x, int) else x for x in ps])
 def fun(name, params, body): return ('fun', name, [(p if isinstance(p, tuple) else (p, None, None)) for p in params], body, None)
 def glet(x, e): return ('glet', ('pv', x) if isinstance(x, int) else x, e)
-def prog(globals_, outs, lets=(), inputs=()): return {"globals": list(globals_), "inputs": list(inputs), "lets": list(lets), "outs": list(outs)}
+def prog(globals_, outs, lets=(), inputs=(), types=()):
+    p = {"globals": list(globals_), "inputs": list(inputs), "lets": list(lets), "outs": list(outs)}
+    if types: p["types"] = [(t, list(cs)) for t, cs in types]
+    return p
+def T(*ts): return ('T', list(ts))
+def S(t): return ('S', t)
+def con(t, tag, arg=None): return ('con', t, tag, arg)
+def match(sc, *arms): return ('match', sc, list(arms))
+def ml(z): return ('ml', z)
+MW = ('mw',)
+def mc(t, tag, q=None): return ('mc', t, tag, ('pv', q) if isinstance(q, int) else q)
+def mt(*ms): return ('mt', list(ms))
+def funr(name, params, body, ret): return ('fun', name, [(p if isinstance(p, tuple) else (p, None, None)) for p in params], body, ret)
+def sub(a, b): return B('sub', a, b)
+def gt(a, b): return B('gt', a, b)
+def mod3(a): return sub(a, mul(L(3), B('max', L(0), B('min', L(100), L(0)))))   # placeholder, not used
 F = 'F'
 def Fn(ps, r): return ('Fn', list(ps), r)
 # counter body  | | { c = c + step ; c }
@@ -93,7 +108,87 @@ case("if_arm_state_in_closure", "stateful constructs in if arms inside an instan
      prog([fun(1, [2], add(SELF, V(2))), fun(3, [], let(9, L(1), lam([4], ('if', V(4), app(1, L(1)), add(app(1, L(10)), V(9)))))), glet(5, app(3))],
           [app(5, B('lt', NOW, L(3)))], ), n=8)
 
+# ---- sum types, match, wide self (rules M and S) ----
+# type T50 = K0 | K1(float) | K2((float, float))
+T50 = (50, [None, F, T(F, F)])
+SH50 = ('ss', 50, [None, 'N', ('st', ['N', 'N'])])
+def pick50(x): return ('if', gt(x, L(2)), con(50, 2, tup(x, add(x, L(1)))), ('if', gt(x, L(0)), con(50, 1, mul(x, L(10))), con(50, 0)))
+def red50(v): return match(v, (mc(50, 0), L(1)), (mc(50, 1, 91), V(91)), (mc(50, 2, pt(92, 93)), add(mul(V(92), L(100)), V(93))))
+case("sum_match_payload", "rule M: constructor arms bind their payload (number, tuple pattern); arms in any order",
+     prog([fun(1, [(2, F, None)], pick50(V(2)))], [red50(app(1, NOW))], types=[T50]), n=5)
+case("match_int_literals", "rule M: integer literal arms and `_`; the scrutinee is a number",
+     prog([], [match(NOW, (ml(0), L(10)), (ml(1), L(20)), (MW, L(30)))]), n=4)
+case("match_tuple_patterns", "rule M: tuple patterns match componentwise, first matching arm",
+     prog([], [match(tup(NOW, sub(NOW, L(1))), (mt(ml(0), MW), L(1)), (mt(ml(1), ml(0)), L(2)), (mt(MW, ml(1)), L(3)), (MW, L(4)))]), n=5)
+case("match_tuple_of_sums", "rule M: constructor patterns inside a tuple pattern bind their payloads",
+     prog([fun(1, [(2, F, None)], pick50(V(2)))],
+          [match(tup(app(1, NOW), app(1, sub(L(4), NOW))),
+                 (mt(mc(50, 1, 5), mc(50, 1, 6)), add(V(5), V(6))), (mt(mc(50, 2, pt(5, 6)), mc(50, 1, 7)), add(add(V(5), V(6)), V(7))),
+                 (mt(mc(50, 0), MW), L(-1)), (MW, L(100)))], types=[T50]), n=5)
+case("match_arms_keep_state", "rule M: each arm owns its state; an arm that is not taken keeps it (the repaired F27)",
+     prog([fun(1, [(2, F, None)], add(SELF, V(2)))],
+          [match(sub(NOW, mul(L(3), ('if', gt(NOW, L(2)), L(1), L(0)))), (ml(0), app(1, L(1))), (ml(1), L(200)), (MW, app(1, L(10))))]), n=8)
+case("match_sum_arms_keep_state", "rule M: stateful arms of a match on a sum value",
+     prog([fun(1, [(2, F, None)], add(SELF, V(2))), fun(3, [(4, F, None)], pick50(V(4)))],
+          [match(app(3, sub(NOW, mul(L(2), ('if', gt(NOW, L(1)), L(1), L(0))))),
+                 (mc(50, 0), app(1, L(1))), (mc(50, 1, 5), app(1, V(5))), (MW, add(app(1, L(100)), ('mem', NOW))))], types=[T50]), n=8)
+case("self_tuple", "rule S: the feedback value of a function returning a tuple is the previous tuple, (0, 0) first",
+     prog([funr(1, [(2, F, None)], let(pt(3, 4), ('selfs', ('st', ['N', 'N'])), tup(add(V(3), V(2)), add(V(4), V(3)))), T(F, F))],
+          [let(pt(5, 6), app(1, L(1)), add(mul(V(5), L(100)), V(6)))]))
+case("self_record", "rule S: record-valued self",
+     prog([funr(1, [(2, F, None)], let(('pr', [(0, ('pv', 3)), (2, ('pv', 4))]), ('selfs', ('sr', [(0, 'N'), (2, 'N')])),
+                                        ('rec', [(0, add(V(3), V(2))), (2, add(V(4), V(3)))])), ('R', [(0, F), (2, F)]))],
+          [let(5, app(1, L(1)), add(mul(('fld', V(5), 0), L(100)), ('fld', V(5), 2)))]))
+case("self_sum_zero_is_first_constructor", "rule S: a zero-initialised sum-typed self is the FIRST constructor with a zero payload",
+     prog([funr(1, [(2, F, None)], let(3, match(('selfs', ('ss', 51, [('st', ['N', 'N']), 'N', None])),
+                                                (mc(51, 0, pt(4, 5)), add(add(mul(V(4), L(7)), V(5)), L(1000))), (mc(51, 1, 4), V(4)), (mc(51, 2), L(-1))),
+                                        ('if', gt(V(2), L(2)), con(51, 2), ('if', gt(V(2), L(0)), con(51, 1, add(V(3), V(2))), con(51, 0, tup(V(3), add(V(2), L(1))))))), S(51))],
+          [match(app(1, NOW), (mc(51, 0, pt(4, 5)), add(mul(V(4), L(7)), V(5))), (mc(51, 1, 4), V(4)), (mc(51, 2), L(-1)))],
+          types=[(51, [T(F, F), F, None])]), n=6)
+case("self_tuple_with_sum", "rule S: a feedback value that is a tuple of a number and a sum value",
+     prog([funr(1, [(2, F, None)], let(pt(3, 4), ('selfs', ('st', ['N', SH50])),
+                                        let(5, match(V(4), (mc(50, 0), L(100)), (mc(50, 1, 6), V(6)), (MW, L(7))),
+                                            tup(add(V(3), L(1)), ('if', gt(V(2), L(1)), con(50, 1, add(V(5), V(2))), con(50, 0))))), T(F, S(50)))],
+          [let(pt(7, 8), app(1, NOW), add(mul(V(7), L(10000)), match(V(8), (mc(50, 0), L(-1)), (mc(50, 1, 9), V(9)), (MW, L(0)))))], types=[T50]), n=6)
+case("lambda_self_tuple", "rule S/I: a closure instance with a tuple-valued self",
+     prog([fun(1, [(2, F, None)], lam([3], let(pt(4, 5), ('selfs', ('st', ['N', 'N'])), tup(add(V(4), V(3)), add(add(V(5), V(4)), V(2)))))),
+           glet(6, app(1, L(3)))], [let(pt(7, 8), app(6, L(1)), add(mul(V(7), L(1000)), V(8)))]))
+case("match_binder_captured_by_closure", "rule M/V: the payload binder of a constructor arm is a cell a closure can capture",
+     prog([fun(1, [(2, F, None)], pick50(V(2)))], [match(app(1, NOW), (mc(50, 1, 5), ('pipe', L(6), lam([7], add(V(5), V(7))))), (MW, L(0)))], types=[T50]), n=4)
+
 # ---------------- finding witnesses: the recorded deviation is expected; a change is reported ----------------
+case("M1_wildcard_arm_first", "both backends: `_` is the default wherever it stands: the arm 0 => .. after it is still taken (reference 30,30,30)",
+     prog([], [match(NOW, (MW, L(30)), (ml(0), L(10)), (ml(1), L(20)))]), n=3, finding="M1")
+case("M1b_tuple_general_arm_first", "both backends: the decision tree tries (0, 0) before (_, _) (reference 1,1,1)",
+     prog([], [match(tup(NOW, L(0)), (mt(MW, MW), L(1)), (mt(ml(0), ml(0)), L(2)))]), n=3, finding="M1")
+case("M2_duplicated_arm_state", "both backends: the `_` arm of a tuple match is compiled once per branch of the decision tree, each copy with its own state (reference 1 200 2 3 200 4 5 200)",
+     prog([fun(1, [(2, F, None)], add(SELF, V(2)))],
+          [match(tup(sub(NOW, mul(L(3), ('if', gt(NOW, L(5)), L(2), ('if', gt(NOW, L(2)), L(1), L(0))))), L(1)),
+                 (mt(ml(0), ml(0)), L(100)), (mt(ml(1), MW), L(200)), (MW, app(1, L(1))))]), n=8, finding="M2")
+case("M3_duplicate_literal_arm", "VM: of two arms with the same literal the last one is taken (reference and WASM: the first; 10 20 30)",
+     prog([], [match(NOW, (ml(0), L(10)), (ml(0), L(15)), (ml(1), L(20)), (MW, L(30)))]), n=3, finding="M3")
+case("M5_nested_payload_pattern_in_tuple_match", "both backends: (x, (y, z)) inside a constructor pattern inside a tuple pattern binds y and z to the same component (reference 789)",
+     prog([], [match(tup(L(1), con(52, 0, tup(L(7), tup(L(8), L(9))))),
+                     (mt(MW, mc(52, 0, ('pt', [('pv', 1), ('pt', [('pv', 2), ('pv', 3)])]))), add(add(mul(V(1), L(100)), mul(V(2), L(10))), V(3))), (MW, L(0)))],
+          types=[(52, [T(F, T(F, F)), None])]), n=2, finding="M5")
+case("MG_global_match_payload_wasm", "WASM: a match with a payload binder in a top-level let gives 0.0 (reference and VM 4)",
+     prog([glet(1, match(con(53, 0, tup(L(1), L(6))), (mc(53, 1, pt(2, 3, 4)), V(2)), (MW, L(4))))], [V(1)], types=[(53, [T(F, F), T(F, F, F)])]), n=2, finding="MG")
+case("MGb_global_match_payload_vm_panic", "VM: compile panic `value reg(N) not found` when the payload binder of a top-level match is used in an if (reference 0)",
+     prog([glet(1, match(con(54, 1, L(2)), (mc(54, 0, 2), ('if', V(2), L(1), V(2))), (MW, L(0))))], [V(1)], types=[(54, [F, F])]), n=2, finding="MG")
+case("W10_lambda_returns_sum_self", "WASM: invalid module for a lambda whose result is its own sum-typed self (reference 0,0)",
+     prog([fun(1, [], lam([2], let(3, match(('selfs', ('ss', 55, ['N', ('st', ['N', 'N'])])), (mc(55, 0, 4), V(4)), (mc(55, 1, pt(5, 6)), V(5))),
+                                   ('selfs', ('ss', 55, ['N', ('st', ['N', 'N'])]))))), glet(7, app(1))],
+          [match(app(7, NOW), (mc(55, 0, 4), V(4)), (mc(55, 1, pt(5, 6)), add(mul(V(5), L(100)), V(6))))], types=[(55, [F, T(F, F)])]), n=2, finding="W10")
+case("W11_tuple_match_binder_captured", "WASM: a closure capturing the payload binder of a constructor pattern inside a tuple pattern reads an address (reference 7)",
+     prog([], [match(tup(con(56, 0, L(7)), L(1)), (mt(mc(56, 0, 1), MW), ('pipe', L(6), lam([2], V(1)))), (MW, L(0)))], types=[(56, [F, None])]), n=2, finding="W11")
+case("W12_self_pattern_var_in_tuple", "WASM: | | { let (a, b) = self  (a, b) }: a closure capturing a component of the result reads an address (reference 0)",
+     prog([fun(1, [], lam([], let(pt(2, 3), ('selfs', ('st', ['N', 'N'])), tup(V(2), V(3))))), glet(4, app(1))],
+          [let(pt(5, 6), app(4), let(7, lam([8], V(6)), app(7, L(1))))]), n=2, finding="W12")
+case("PROJ_match_arm_value", "WASM: a projection as the value of a match arm: the OTHER arms give 0.0 (reference 8 4 4)",
+     prog([], [let(1, tup(L(7), L(8)), match(NOW, (ml(0), ('proj', V(1), 1)), (MW, L(4))))]), n=3, finding="PROJ")
+case("PROJ_constructor_payload", "WASM: a projection as the payload of a constructor stores the address (reference 0)",
+     prog([glet(1, tup(L(0), NOW))], [match(con(57, 0, ('proj', V(1), 1)), (mc(57, 0, 2), V(2)), (MW, NOW))], types=[(57, [F, None])]), n=2, finding="PROJ")
+
 case("X1_assign_two_levels", "an assignment to a local from a lambda nested two levels deep is lost (reference 11)",
      prog([], [let(1, L(0), let(2, lam([], let(3, counter(1, L(1)), app(3))), let(4, app(2), add(mul(V(4), L(10)), V(1)))))]), finding="X1")
 case("X2_closed_when_passed", "VM: passing a closure as an argument copies its captured cells; frame and closure part ways (reference 1122)",
@@ -134,6 +229,11 @@ if __name__ == "__main__":
     rc, out, mexe = vplib.ocaml_build("lmmx_drv", ["lmmx_model"], os.path.join(vplib.VERIF, "ocaml", "lmmx_drv.ml")); assert rc == 0, out
     rc, out, bindir = vplib.cargo_build("lang", ["lmmm_run"]); assert rc == 0, out[-2000:]
     iexe = os.path.join(bindir, "lmmm_run")
+    for c in CASES:
+        want = {c["finding"]} if c["finding"] not in (None, "R5", "X4", "X1", "X2", "X3", "X6", "W8") else None
+        got = lmmx.known_classes(c["prog"])
+        if want is not None and not (want <= got):
+            print("!!! class predicate of %s does not hold for its witness %s (classes: %s)" % (c["finding"], c["name"], sorted(got)))
     cs = [(c["prog"], c["rows"]) for c in CASES]
     mres = lmmx.run_model(mexe, cs)
     reqs = lmmx.impl_requests(cs)
